@@ -409,7 +409,7 @@ def oracle_case(ctx, c, df):
 
 def make_cases(ctx, rd, main):
     rng = ctx.rng
-    ncases = 30 if ctx.tier == "quick" else 150
+    ncases = 30 if ctx.tier == "quick" else 400
     cases = []
     tabs = ["none", "ortho", "full", "cubic", "hexagonal", "orthorhombic", "tetragonal6", "ortho"]
     for i in range(ncases):
@@ -571,6 +571,9 @@ def run(ctx):
     # static theorems (copy compiled per run so that Print Assumptions lands in the evidence)
     shutil.copy(PROPS / "Prop_C18.v", rd / "Prop_C18.v")
     ctx.prove(rd / "Prop_C18.v", "Prop_C18.v (18 theorems + 2 non-vacuity examples about StaticModel.v)", "theorem-file")
+    # static translator tie: VRH / velocity block of cli/static.py regenerated and proved equal to s_vrh_row (over R)
+    from props import vrh_static
+    vrh_static.static_tie(ctx, rd, groups=vrh_static.STATIC_GROUPS)
 
     import importlib
     import cij.cli.static as S
